@@ -3,5 +3,5 @@
 P="$1"; shift
 git -C /repo apply "$P" || exit 9
 for prop in "$@"; do /verif/check "$prop" --tier quick 2>&1 | grep -E "^\[|VIOLATION|rule=|ANALYSIS" | sed 's/^/    /'; done
-git -C /repo checkout -- .
+git -C /repo checkout -- .; git -C /repo clean -fdq optimum
 git -C /repo status --short | head -3
